@@ -12,7 +12,8 @@ A *layer module* (tools/corr/l_<name>.py) defines
 import json, os, random, subprocess, sys, hashlib
 
 VERIF = os.path.dirname(os.path.dirname(os.path.dirname(os.path.abspath(__file__))))
-DRV = os.path.join(VERIF, "coq", "build", "drv")
+DRV = os.path.join(VERIF, "coq", "build", "drv")   # set by checklib to build/<pid>/drv
+REPO = os.environ.get("VERIF_REPO", "/repo")
 PY = "/venv/bin/python"
 NPROC = 16
 
@@ -103,10 +104,11 @@ def run_model(cases, nproc=NPROC):
     return _unchunk(parts, len(cases))
 
 
-def run_impl(layer, cases, nproc=NPROC, repo="/repo"):
+def run_impl(layer, cases, nproc=NPROC, repo=None):
     """-> list of {"ok": tree} | {"exc": name, "msg": str}"""
     if not cases:
         return []
+    repo = repo or REPO
     env = dict(os.environ)
     env["PYTHONPATH"] = repo
     env["PYTHONHASHSEED"] = "0"
@@ -175,7 +177,7 @@ def tree_size(t):
     return 1 + sum(tree_size(x) for x in t)
 
 
-def compare(layer_name, cases, repo="/repo", want_spec=True):
+def compare(layer_name, cases, repo=None, want_spec=True):
     """run model and implementation on the same cases, compare, run spec checkers on impl output"""
     layer = load_layer(layer_name)
     res = CorrResult()
